@@ -144,6 +144,11 @@ func checkC11(tier, replay string) int {
 					for _, fl := range []uint32{0, 1, 2, 3, 4, 5} { // 4 = SPEC_ALLOW: a flag the kernel accepts and the library has no name for
 						for _, lm := range []bool{false, true} {
 							cfgs = append(cfgs, c11Config{unpriv, nnpScript{NNP: nnp, Flags: fl, Choice: "stay", LoaderMain: lm}})
+							if !lm {
+								// the bit is per thread: the thread-group leader already has it, the loader's thread does not. What
+								// /proc/self/status or any other process-wide view says is the leader's bit, not the loader's
+								cfgs = append(cfgs, c11Config{unpriv, nnpScript{NNP: nnp, Flags: fl, Choice: "stay", PreNNP: "leader"}})
+							}
 							if !unpriv {
 								// prctl(2) itself is denied with EPERM by an outer filter: a requested bit cannot be set, so
 								// nothing may be installed without it
@@ -165,12 +170,13 @@ func checkC11(tier, replay string) int {
 			}
 		}
 	}
+	var preNNP int64
 	var children, moved, impossible, movedOld, movedNew, controlOK, delayCtl, delayMoved, delayStayed int64
 	parallelFor(len(cfgs), func(i int) {
 		c := cfgs[i]
 		var rep nnpReport
 		env := []string{}
-		if c.Script.LoaderMain {
+		if c.Script.LoaderMain || c.Script.PreNNP == "leader" {
 			env = append(env, "VERIF_LOCK_MAIN=1")
 		}
 		if c.Script.Choice == "prctl-delay" {
@@ -185,6 +191,14 @@ func checkC11(tier, replay string) int {
 			return
 		}
 		cls := fmt.Sprintf("%s:nnp=%v:%s", map[bool]string{true: "unpriv", false: "priv"}[c.Unpriv], c.Script.NNP, c.Script.Choice)
+		if c.Script.PreNNP != "" {
+			cls += ":pre-nnp-" + c.Script.PreNNP
+			if !rep.PreNNPDone {
+				ctx.Capped("the thread-group leader could not be given no_new_privs before the load")
+				return
+			}
+			atomic.AddInt64(&preNNP, 1)
+		}
 		if c.Script.Choice == "prctl-delay" {
 			if rep.ControlMoved {
 				atomic.AddInt64(&delayCtl, 1)
@@ -267,6 +281,7 @@ func checkC11(tier, replay string) int {
 	ctx.Cov["transitions"] = children
 	ctx.Cov["traces_validated_against_impl"] = children
 	ctx.Cov["schedules_with_goroutine_moved_between_prctl_and_seccomp"] = moved
+	ctx.Cov["loads_with_no_new_privs_already_set_on_the_thread_group_leader_only"] = preNNP
 	ctx.Cov["moved_to_preexisting_thread"] = movedOld
 	ctx.Cov["moved_to_thread_born_during_load"] = movedNew
 	ctx.Cov["schedules_where_migration_is_impossible_because_loader_is_wired_to_its_thread"] = impossible
@@ -314,7 +329,7 @@ func checkC11(tier, replay string) int {
 		}
 	}
 	ctx.Cov["filters_read_through_the_configuration_loader"] = cfgForms
-	ctx.Cov["rule"] = "states = {privileged, uid 65534} x NoNewPrivs x flags {0,tsync,log,tsync|log,4 (SPEC_ALLOW),5} x loader on main / other goroutine x thread placement at the single seam between prctl(2) and seccomp(2): stay, or forced migration (a helper goroutine takes over and wires itself to the loader's thread so that the runtime must resume the loader on another thread; with and without a pool of idle threads / with all idle threads wired), or - for NoNewPrivs loads with flags 0 and tsync, when strace is available - a second schedule point at the prctl itself (a tracer holds every prctl(2) in the kernel for 60 ms while the process has one P and a goroutine that never blocks, so that an unpinned goroutine resumes on another thread when the call returns); the manoeuvre is first shown to work on an unpinned control goroutine in the same process; each configuration runs the real LoadFilter in a fresh child; observed: result, tid and no_new_privs bit at the seam, per-thread NoNewPrivs/Seccomp before and after; plus every history of two (thorough: three) loads over two threads x {A,B} x NoNewPrivs x tsync in one process, privileged and unprivileged, judged step by step on /proc (the bit is per thread: a second load on another thread must set it again); plus a Filter written with the documented keys (no_new_privs x 4 flag words, YAML and JSON text) read through the ucfg loader: the fields LoadFilter looks at must hold what the text says"
+	ctx.Cov["rule"] = "states = {privileged, uid 65534} x NoNewPrivs x flags {0,tsync,log,tsync|log,4 (SPEC_ALLOW),5} x loader on main / other goroutine (also with no_new_privs already set on the thread-group leader only, the loader being another thread) x thread placement at the single seam between prctl(2) and seccomp(2): stay, or forced migration (a helper goroutine takes over and wires itself to the loader's thread so that the runtime must resume the loader on another thread; with and without a pool of idle threads / with all idle threads wired), or - for NoNewPrivs loads with flags 0 and tsync, when strace is available - a second schedule point at the prctl itself (a tracer holds every prctl(2) in the kernel for 60 ms while the process has one P and a goroutine that never blocks, so that an unpinned goroutine resumes on another thread when the call returns); the manoeuvre is first shown to work on an unpinned control goroutine in the same process; each configuration runs the real LoadFilter in a fresh child; observed: result, tid and no_new_privs bit at the seam, per-thread NoNewPrivs/Seccomp before and after; plus every history of two (thorough: three) loads over two threads x {A,B} x NoNewPrivs x tsync in one process, privileged and unprivileged, judged step by step on /proc (the bit is per thread: a second load on another thread must set it again); plus a Filter written with the documented keys (no_new_privs x 4 flag words, YAML and JSON text) read through the ucfg loader: the fields LoadFilter looks at must hold what the text says"
 	ctx.Assumptions = []string{"the only scheduling fact that matters between prctl and seccomp is which OS thread executes seccomp(2); instruction-level preemption inside the runtime is not enumerated", "if the loader is wired to its thread, migration is impossible and the property holds by construction (counted separately)"}
 	if replay != "" {
 		return finishReplay(ctx)
